@@ -80,6 +80,22 @@ type propCfg struct {
 func env() []string {
 	e := os.Environ()
 	e = append(e, "GOFLAGS=-mod=mod", "GOPROXY=off", "GOSUMDB=off", "GOTOOLCHAIN=local")
+	// The RNG seam needs the reader tink passes to crypto/ecdsa, crypto/rsa and crypto/ecdh to be honoured (Go 1.26's
+	// cryptocustomrand=1; implied by the harness go.mod's "go 1.25.0", forced here so that a GODEBUG inherited from the
+	// caller cannot switch it off).
+	gd := "cryptocustomrand=1"
+	for _, kv := range e {
+		if strings.HasPrefix(kv, "GODEBUG=") && len(kv) > 8 {
+			var keep []string
+			for _, f := range strings.Split(kv[8:], ",") {
+				if !strings.HasPrefix(f, "cryptocustomrand=") && f != "" {
+					keep = append(keep, f)
+				}
+			}
+			gd = strings.Join(append(keep, gd), ",")
+		}
+	}
+	e = append(e, "GODEBUG="+gd)
 	return e
 }
 
